@@ -4,8 +4,9 @@ ENTRY = dict(
          "predefined fingerprint plus 3 (thorough: 12) seeded randomized ones x 4 (thorough: n) runs, server behaviour rotating over "
          "ServerHello / HelloRetryRequest with selected group + cookie / cookie only / group only (the group is one the hello lists "
          "without a share; TLS 1.2-only and PSK fingerprints get a plain server); after the first BuildHandshakeState a generated "
-         "list of 1..4 (thorough: 1..8) public calls out of SetClientRandom, SetSNI (name, trailing dot, IPv4, bracketed IPv6), "
-         "Hello.SessionId (32/16/1 bytes), Hello.CipherSuites reordered, insert / remove / replace of an object in uconn.Extensions "
+         "list of 1..4 (thorough: 1..8) public calls out of SetClientRandom (32 bytes; 31/33/0 bytes must be refused), SetSNI (name, "
+         "trailing dot, IPv4, bracketed IPv6, empty, one character), Hello.SessionId (32/31/16/1 bytes, zero-length, nil), "
+         "Hello.CipherSuites reordered / cut to one / empty (the server then refuses the hello), insert / remove / replace of an object in uconn.Extensions "
          "(never a session or pre_shared_key extension) and further BuildHandshakeState calls, then Handshake. Observed: the "
          "ClientHello handshake messages in the recorded stream, Hello.Raw after each BuildHandshakeState and after Handshake. "
          "Go-side oracle from the property text: first wire hello == Hello.Raw of a BuildHandshakeState made right before Handshake, "
